@@ -508,6 +508,8 @@ func fileRedirPort(mode parse.RedirMode, f *os.File) *Port {
 			File: f,
 			// ClosedChan produces no values when reading.
 			Chan: ClosedChan,
+			// Throws an exception when writing.
+			sendStop: closedSendStop, sendError: &ErrPortDoesNotSupportValueOutput,
 		}
 	}
 	return &Port{
